@@ -862,7 +862,17 @@ func (s *Stream) parseFunctionArgs(funcExpr string, data map[string]any) ([]any,
 			if result, err := functions.GetExprBridge().EvaluateExpression(arg, data); err == nil {
 				args[i] = result
 			} else {
-				args[i] = arg
+				// an expression over a column the row lacks (n / b): NULL, not its source text
+				args[i] = nil
+			}
+		} else if isColumnReference(arg) {
+			// a nested path is resolved against the row; a column or path the row does not carry is NULL, not the
+			// text of its name
+			args[i] = nil
+			if fieldpath.IsNestedField(arg) {
+				if v, ok := fieldpath.GetNestedField(data, arg); ok {
+					args[i] = v
+				}
 			}
 		} else {
 			args[i] = arg
@@ -870,6 +880,24 @@ func (s *Stream) parseFunctionArgs(funcExpr string, data map[string]any) ([]any,
 	}
 
 	return args, nil
+}
+
+// isColumnReference reports whether s has the shape of a column name or nested path (a, d.x, arr[1], m['k']).
+func isColumnReference(s string) bool {
+	if s == "" || !(s[0] == '_' || (s[0] >= 'a' && s[0] <= 'z') || (s[0] >= 'A' && s[0] <= 'Z')) {
+		return false
+	}
+	switch strings.ToLower(s) {
+	case "true", "false", "null", "nil":
+		return false
+	}
+	for i := 0; i < len(s); i++ {
+		c := s[i]
+		if !(c == '_' || c == '.' || c == '[' || c == ']' || c == '\'' || c == '"' || (c >= 'a' && c <= 'z') || (c >= 'A' && c <= 'Z') || (c >= '0' && c <= '9')) {
+			return false
+		}
+	}
+	return true
 }
 
 // containsExpressionOperator reports whether s contains an arithmetic or
